@@ -6,6 +6,7 @@ from lark import Token, Tree
 
 from vf import evalhelp as H
 from vf import evaluators as E
+from vf import sched
 from vf.canon import canon, show, tree_objects
 from vf.gen import ahb as GA
 from vf.gen import expr as G
@@ -14,6 +15,7 @@ from vf.ref import logic
 
 from ahbicht.expressions.ahb_expression_parser import parse_ahb_expression_to_single_requirement_indicator_expressions
 from ahbicht.expressions.condition_expression_parser import parse_condition_expression_to_tree
+from ahbicht.expressions.expression_resolver import parse_expression_including_unresolved_subexpressions
 
 PARSERS = {"cond": parse_condition_expression_to_tree, "ahb": parse_ahb_expression_to_single_requirement_indicator_expressions}
 CACHE_SIZE = 1024
@@ -37,7 +39,14 @@ def make_pool(rng, seed):
         pool.append(("cond", G.join_tokens(toks, rng) + sfx, None))
     for _ in range(10):
         parts = GA.gen_parts(rng, lambda: G.gen_eval(rng, rng.randint(0, 2), max_leaves=5), p_bare=0.0, p_trailing_bare=0.0)
-        pool.append(("ahb", GA.render_parts(parts, rng) + sfx, None))
+        # every condition part carries the salt: the strings the resolver hands to the condition parser are private to this history, too
+        texts = [rng.choice(GA.WS) + G.render(cond, rng) + sfx for _ind, cond in parts]
+        pool.append(("ahb", "".join(GA.spelling(ind, rng) + text for (ind, _c), text in zip(parts, texts)), None, texts))
+    # the condition parts of the AHB expressions as pool entries of their own (what the resolver parses must stay pristine as well)
+    for entry in list(pool):
+        if entry[0] == "ahb":
+            for text in entry[3]:
+                pool.append(("cond", text, None))
     return pool
 
 
@@ -98,7 +107,7 @@ async def run_history(ctx, case):
         ctx.violation(kind, message + f" | last operations: {log[-6:]}")
 
     def parse(i, why):
-        kind, s, _ast = pool[i]
+        kind, s = pool[i][0], pool[i][1]
         ctx.evaluation()
         out = capture(PARSERS[kind], s)
         log.append(f"parse#{i}({why})")
@@ -131,7 +140,7 @@ async def run_history(ctx, case):
     def cross_parse(i, why):
         """the string of pool entry i given to the OTHER parser: no string is well-formed for both grammars, so this is a SyntaxError, whatever
         the string's own parser has cached for it"""
-        kind, s, _ast = pool[i]
+        kind, s = pool[i][0], pool[i][1]
         other = "ahb" if kind == "cond" else "cond"
         ctx.evaluation()
         ctx.count("cross_parser_calls")
@@ -148,20 +157,45 @@ async def run_history(ctx, case):
     for i in range(0, len(pool), 2):
         if not cross_parse(i, "before-own-parser"):
             return
+
+    resolved_first = {}
+
+    async def resolve(i, why):
+        """the combined resolver on an AHB pool string, time conditions kept (the returned tree embeds the trees of the condition parts)"""
+        s = pool[i][1]
+        ctx.evaluation()
+        ctx.count("resolver_calls")
+        out = await sched.run_under(None, lambda: parse_expression_including_unresolved_subexpressions(s, resolve_packages=False, replace_time_conditions=False))
+        log.append(f"resolve#{i}({why})")
+        if out[0] != "ok":
+            fail(f"parse-raises-{type(out[1]).__name__}", f"resolver on pool string #{i} {s!r} {describe(out)[:200]}")
+            return None
+        c = canon(out[1])
+        if i not in resolved_first:
+            resolved_first[i] = c
+        elif c != resolved_first[i]:
+            fail("history-dependent-parse", f"resolver: {s!r} now gives {show(c)[:250]}, the first call gave {show(resolved_first[i])[:250]}")
+            return None
+        returned.append((i, out[1]))
+        return out[1]
     # evaluation results before the history
     world_asg = {k: rng.choice("FUK") for k in G.RC_POOL}
     before = {}
-    for i, (kind, s, ast) in enumerate(pool):
+    for i, entry in enumerate(pool):
+        s, ast = entry[1], entry[2]
         if ast is not None:
             res = await H.async_requirement(s, E.World("c11", rc=world_asg, fc={k: True for k in G.FC_POOL}))
             before[i] = repr(res[1]) if res[0] == "ok" else "raises " + type(res[1]).__name__
             parse(i, "initial")
+    ahb_indexes = [i for i, entry in enumerate(pool) if entry[0] == "ahb"]
     nviol = sum(ctx.violation_counts.values())
     for step in range(nops):
         r = rng.random()
         if r < 0.08:
             if not cross_parse(rng.randrange(len(pool)), "random"):
                 return
+        elif r < 0.16:
+            await resolve(rng.choice(ahb_indexes), "random")
         elif r < 0.45 or not returned:
             parse(rng.randrange(len(pool)), "random")
         elif r < 0.9:
@@ -173,6 +207,11 @@ async def run_history(ctx, case):
             if depth >= 1:
                 ctx.count("nested_mutations")
             # quiescent point: the same string parsed again must still be pristine
+            if pool[i][0] == "ahb":
+                # (the edited tree may have come from the resolver: its condition parts are strings of their own)
+                for j, entry in enumerate(pool):
+                    if entry[0] == "cond" and entry[1] in pool[i][3] and j in pristine:
+                        parse(j, "after-mutation-of-enclosing-expression")
             parse(i, "after-mutation")
         else:
             for i in range(len(pool)):
@@ -184,8 +223,11 @@ async def run_history(ctx, case):
         # more distinct strings than the cache holds: everything of this history is evicted, then parsed afresh
         sfx = salt(seed)
         for n in range(CACHE_SIZE + 80):
-            capture(parse_condition_expression_to_tree, f"[{n % 400 + 1}]{sfx}{' ' * (n // 400)}\n")
-            capture(parse_ahb_expression_to_single_requirement_indicator_expressions, f"Muss[{n % 400 + 1}]{sfx}{' ' * (n // 400)}\n")
+            for fn, text in ((parse_condition_expression_to_tree, f"[{n % 400 + 1}]{sfx}{' ' * (n // 400)}\n"), (parse_ahb_expression_to_single_requirement_indicator_expressions, f"Muss[{n % 400 + 1}]{sfx}{' ' * (n // 400)}\n")):
+                flooded = capture(fn, text)
+                if flooded[0] != "ok":
+                    fail(f"parse-raises-{type(flooded[1]).__name__}", f"distinct string number {n + 1} of a flood, {text!r}: {describe(flooded)[:200]}")
+                    return
         ctx.count("floods")
         log.append("flood")
     for i in range(len(pool)):
@@ -194,7 +236,10 @@ async def run_history(ctx, case):
     for i in range(len(pool)):
         if not cross_parse(i, "final"):
             return
-    for i, (kind, s, ast) in enumerate(pool):
+    for i in ahb_indexes:
+        await resolve(i, "final")
+    for i, entry in enumerate(pool):
+        s, ast = entry[1], entry[2]
         if ast is not None:
             res = await H.async_requirement(s, E.World("c11", rc=world_asg, fc={k: True for k in G.FC_POOL}))
             after = repr(res[1]) if res[0] == "ok" else "raises " + type(res[1]).__name__
